@@ -101,8 +101,13 @@ enum ActiveChordStatus {
 }
 use ActiveChordStatus::*;
 
-/// Like the layout Queue but smaller.
-pub(crate) type SmolQueue = ArrayDeque<Queued, SMOL_Q_LEN, arraydeque::behavior::Wrapping>;
+/// Everything that can leave chords v2 in one tick: the whole input queue, one release per active
+/// chord and the two tap-hold trigger events.
+const DRAIN_Q_LEN: usize = crate::layout::QUEUE_SIZE + MAX_ACTIVE_CHORDS + 2;
+const MAX_ACTIVE_CHORDS: usize = 10;
+
+/// Holds the events that chords v2 hands back to the layout in one tick.
+pub(crate) type SmolQueue = ArrayDeque<Queued, DRAIN_Q_LEN, arraydeque::behavior::Wrapping>;
 
 /// Global input chords configuration.
 pub struct ChordsV2<'a, T> {
@@ -116,7 +121,7 @@ pub struct ChordsV2<'a, T> {
     /// Information about what chords are possible and what keys they are associated with.
     chords: ChordsForKeys<'a, T>,
     /// Chords that are active, i.e. ones that have not yet been released.
-    active_chords: HVec<ActiveChord<'a, T>, 10>,
+    active_chords: HVec<ActiveChord<'a, T>, MAX_ACTIVE_CHORDS>,
     /// When a key leaves the combo queue without activating a chord,
     /// this activates a timer during which keys cannot activate chords
     /// and are always forwarded directly to the standard input queue.
@@ -414,8 +419,10 @@ impl<'a, T> ChordsV2<'a, T> {
                         .all(|pk| accumulated_presses.contains(pk))
                     {
                         let ach = get_active_chord(cch, since, coord, relevant_release_found);
-                        let overflow = self.active_chords.push(ach);
-                        assert!(overflow.is_ok(), "active chords has room");
+                        if self.active_chords.push(ach).is_err() {
+                            // No room for another active chord: let the keys through unchorded.
+                            no_chord_activations!(self);
+                        }
                         break;
                     }
                 }
@@ -447,8 +454,9 @@ impl<'a, T> ChordsV2<'a, T> {
                         Some(cch) => {
                             let coord = self.next_coord();
                             let ach = get_active_chord(cch, since, coord, relevant_release_found);
-                            let overflow = self.active_chords.push(ach);
-                            assert!(overflow.is_ok(), "active chords has room");
+                            if self.active_chords.push(ach).is_err() {
+                                no_chord_activations!(self);
+                            }
                         }
                         None => no_chord_activations!(self),
                     }
@@ -500,8 +508,9 @@ impl<'a, T> ChordsV2<'a, T> {
                 Some(cch) => {
                     let ach =
                         get_active_chord(cch, since, self.next_coord(), relevant_release_found);
-                    let overflow = self.active_chords.push(ach);
-                    assert!(overflow.is_ok(), "active chords has room");
+                    if self.active_chords.push(ach).is_err() {
+                        no_chord_activations!(self);
+                    }
                 }
                 None => {
                     no_chord_activations!(self)
